@@ -532,6 +532,32 @@ func H_C05_shutdown_notice() {
 	vReach("shutdown notice")
 }
 
+func init() { vReg("H_C05_bigframes", H_C05_bigframes) }
+
+// C05: concrete frame sizes around the buffer and record sizes a writer stack is likely
+// to chunk at (100 B, 4 KiB +- 1, 16 KiB +- 1, 20 000 B, 64 KiB + 1, 70 000 B): the bytes
+// that reach the client are exactly the response's bytes, once.
+func H_C05_bigframes() {
+	// everything concrete (message ID 5 on connection 7): the whole frame is concrete bytes
+	nc := vNetConn("c")
+	c, err := newConn(context.Background(), 7, nc, vLogger(), vMux())
+	vAssume(err == nil)
+	r := &Request{ID: 1, conn: c, message: &SimpleBindMessage{baseMessage: baseMessage{id: 5}}}
+	w, err := newResponseWriter(c.writer, &c.writerMu, c.logger, c.connID, 1)
+	vAssume(err == nil)
+	sink := func() string { return string(vConnWritten(nc)) }
+	sizes := []int{100, 4095, 4096, 4097, 16383, 16384, 16385, 20000, 65537, 70000}
+	n := sizes[vLen("size", len(sizes)-1)]
+	b := make([]byte, n)
+	for i := range b {
+		b[i] = byte('a' + i%26)
+	}
+	resp := r.NewResponse(WithResponseCode(ResultSuccess), WithDiagnosticMessage(string(b)))
+	vAssert(w.Write(resp) == nil, "write ok")
+	vAssert(sink() == string(resp.packet().Bytes()), "exactly the response's bytes reach the client, once")
+	vReach("big frame")
+}
+
 // C05(ii): inductive step of one Write: from an empty buffer and a free lock,
 // Write returns nil only after emitting exactly the response's bytes, contiguously.
 func H_C05_step() {
